@@ -8,6 +8,8 @@ Proved (all graphs, all rule lists, all iterations):
   TaintRuleApplier.check_method_name     : exactly the dotted-suffix match with %anyname wildcards
   TaintRuleApplier.{should_apply_call_stmt_sink_rules, apply_record_write_sink_rules, apply_field_write_sink_rules, apply_rules_from_code}: True only through a rule of the
       right list whose stated unit-name / unit-path / line restrictions hold and whose name/key clause holds
+  TaintAnalysis.{get_state_with_inclusion_tag, get_symbol_with_states_tag}: tags are read from the CURRENT taint environment (a clean environment yields 0: nothing is remembered
+      from another (source, sink) pair); a memoising decorator is modelled as what it is (a function of the arguments only) and fails this
   TaintAnalysis.find_flows               : a flow is appended only for a (source, sink) pair with a non-zero intersection of the propagated tag and the sink tag; every pair is
       evaluated in a fresh TaintEnv and the analysis-wide environment is restored after every pair; at most |sources| x |sinks| flows
 Recorded finding (F6): no applier reads rule.lang.
@@ -48,7 +50,7 @@ def build():
     reg.add_class(ClassInfo('UnitInfo', TA, dict(original_path=Str)))
     reg.add_class(ClassInfo('TaintEnv', TA, {}))
     reg.add_class(ClassInfo('Flow', TA, dict(vuln_type=Any)))
-    reg.add_class(ClassInfo('TaintAnalysis', TA, dict(taint_manager=Any, rule_applier=Obj('TaintRuleApplier'), path_finder=Opaque('PathFinder'), sfg=Opaque('Graph'), current_entry_point=Any,
+    reg.add_class(ClassInfo('TaintAnalysis', TA, dict(taint_manager=Obj('TaintEnv'), rule_applier=Obj('TaintRuleApplier'), path_finder=Opaque('PathFinder'), sfg=Opaque('Graph'), current_entry_point=Any,
                                                       rule_manager=Obj('RuleManager'))))
     reg.add_class(ClassInfo('TaintRuleApplier', TA, dict(taint_analysis=Obj('TaintAnalysis'), loader=Opaque('Loader'), sfg=Opaque('Graph'), rule_manager=Obj('RuleManager'))))
     APP, NODE, TAN = Obj('TaintRuleApplier'), Obj('SFGNode'), Obj('TaintAnalysis')
@@ -95,9 +97,66 @@ def build():
     # ---- opaque neighbours ---------------------------------------------------------------------------------------------------------------------------------
     reg.add(Contract(TA, 'TaintAnalysis.get_stmt_used_symbol_and_state_by_pos', dict(self=TAN, node=NODE, pos=Int), returns=Tuple(Any, Opt(List(Obj('StateNode')))), opaque=True,
                      modifies=lambda c: {}, note='graph lookup of the callee-name symbol and its states (pure; not under contract)'))
-    reg.add(Contract(TA, 'TaintAnalysis.get_symbol_with_states_tag', dict(self=TAN, symbol_node=NODE), returns=Int, opaque=True,
-                     ensures=[('a-tag-bit-vector', lambda c: z3.And(S.ival(c.res) >= 0, S.ival(c.res) < 2 ** BITW))], modifies=lambda c: {},
-                     note=f'tag of a symbol and of the states it points to (pure read of the taint environment); tags are treated as {BITW}-bit vectors'))
+    # ---- tags are read from the CURRENT taint environment (isolation of the (source, sink) pairs) ---------------------------------------------------------------------------
+    TS_ = 'src/lian/taint/taint_structs.py'
+    statetag = z3.Function('env_state_tag', z3.IntSort(), S.PyObj(), z3.IntSort())
+    symtag = z3.Function('env_symbol_tag', z3.IntSort(), S.PyObj(), z3.IntSort())
+    for q, fn_, pn in (('get_state_tag', statetag, 'state_id'), ('get_symbol_tag', symtag, 'symbol_id')):
+        reg.add(Contract(TS_, 'TaintEnv.' + q, {'self': Obj('TaintEnv'), pn: Any}, returns=Int, opaque=True, modifies=lambda c: {},
+                         ensures=[('the-tag-this-environment-holds-for-the-id', lambda c, fn_=fn_, pn=pn: z3.And(S.ival(c.res) == fn_(S.addr(c.p.self), getattr(c.p, pn)), S.ival(c.res) >= 0, S.ival(c.res) < 2 ** BITW))],
+                         note='TaintEnv lookups are uninterpreted functions of (environment object, id); tags are 16-bit vectors'))
+    reg.add_class(ClassInfo('deque', TA, {}, kind='opaque'))
+
+    @reg.extern('collections.deque', 'collections.deque(iterable): a work queue (its content is not modelled: popleft() yields some state node of the graph)')
+    def _deque(ex, st, node, args, kwargs):
+        return V(ex.alloc(st, 'deque'), Opaque('deque'))
+
+    @reg.opaque('opaque_truth', 'deque', 'truth of a deque: non-empty (unspecified)')
+    def _dq_truth(ex, st, recv):
+        return S.fresh('queue_nonempty', z3.BoolSort())
+
+    @reg.extern_method('deque', 'popleft', 'deque.popleft(): some state node of the graph')
+    def _dq_pop(ex, st, node, recv, args, kwargs):
+        t = S.fresh('queued_node')
+        st.assume(S.has_type(t, NODE, z3.Int('next_ref0')))
+        return V(t, NODE)
+
+    @reg.extern_method('deque', 'append', 'deque.append(x)')
+    def _dq_app(ex, st, node, recv, args, kwargs):
+        return V(S.NONE(), NoneT)
+
+    @reg.extern_method('Graph', 'successors', 'DiGraph.successors(node): the successor nodes, as a fresh list')
+    def _succs(ex, st, node, recv, args, kwargs):
+        r = ex.alloc(st, 'list')
+        seq = z3.Function('sfg_successors', z3.IntSort(), S.PyObj(), S.SeqP())(S.addr(recv.t), args[0].t)
+        st.set_field('list', z3.Store(st.field('list'), S.addr(r), seq))
+        st.assume(z3.ForAll([kq], z3.Implies(z3.And(kq >= 0, kq < z3.Length(seq)), S.has_type(S.at(seq, kq), NODE, z3.Int('next_ref0'))), patterns=[S.at(seq, kq)]))
+        return V(r, List(NODE))
+    idq = z3.Const('id', S.PyObj())
+
+    def clean_states(h, self_):
+        """the current taint environment holds no tainted state"""
+        return z3.ForAll([idq], statetag(S.addr(h.attr(self_, 'taint_manager')), idq) == 0, patterns=[statetag(S.addr(h.attr(self_, 'taint_manager')), idq)])
+    tg = lambda c: z3.And(S.ival(c.l.tag) >= 0, S.ival(c.l.tag) < 2 ** BITW, c.cur.attr(c.p.self, 'taint_manager') == c.pre.attr(c.p.self, 'taint_manager'),
+                          c.cur.attr(c.p.self, 'sfg') == c.pre.attr(c.p.self, 'sfg'), z3.Implies(clean_states(c.pre, c.p.self), S.ival(c.l.tag) == 0))
+    reg.add(Contract(TA, 'TaintAnalysis.get_state_with_inclusion_tag', dict(self=TAN, state_node=NODE), returns=Int,
+                     loops={1: LoopSpec(invariants=[('the-tag-comes-from-the-current-environment', tg)], modifies=lambda c: {'dom': [c.l.state_visited]}),
+                            2: LoopSpec(invariants=[('the-tag-comes-from-the-current-environment', tg)], modifies=lambda c: {'dom': [c.l.state_visited]}),
+                            3: LoopSpec(invariants=[('the-tag-comes-from-the-current-environment', tg)], modifies=lambda c: {'dom': [c.l.state_visited]})},
+                     ensures=[('a-tag-bit-vector', lambda c: z3.And(S.ival(c.res) >= 0, S.ival(c.res) < 2 ** BITW)),
+                              ('isolation:-with-no-tainted-state-in-the-CURRENT-environment-the-tag-is-0-(nothing-is-remembered-from-another-pair)', lambda c: z3.Implies(
+                                  clean_states(c.old, c.p.self), S.ival(c.res) == 0))],
+                     modifies=lambda c: {}))
+    tg2 = lambda c: z3.And(S.ival(c.l.tag) >= 0, S.ival(c.l.tag) < 2 ** BITW, c.cur.attr(c.p.self, 'taint_manager') == c.pre.attr(c.p.self, 'taint_manager'),
+                           c.cur.attr(c.p.self, 'sfg') == c.pre.attr(c.p.self, 'sfg'),
+                           z3.Implies(z3.And(clean_states(c.pre, c.p.self), symtag(S.addr(c.pre.attr(c.p.self, 'taint_manager')), c.pre.attr(c.p.symbol_node, 'node_id')) == 0), S.ival(c.l.tag) == 0))
+    reg.add(Contract(TA, 'TaintAnalysis.get_symbol_with_states_tag', dict(self=TAN, symbol_node=NODE), returns=Int,
+                     loops={1: LoopSpec(invariants=[('the-tag-comes-from-the-current-environment', tg2)], modifies=lambda c: {}),
+                            2: LoopSpec(invariants=[('the-tag-comes-from-the-current-environment', tg2)], modifies=lambda c: {})},
+                     ensures=[('a-tag-bit-vector', lambda c: z3.And(S.ival(c.res) >= 0, S.ival(c.res) < 2 ** BITW)),
+                              ('isolation:-an-untainted-symbol-with-untainted-states-in-the-CURRENT-environment-has-tag-0', lambda c: z3.Implies(
+                                  z3.And(clean_states(c.old, c.p.self), symtag(S.addr(c.old.attr(c.p.self, 'taint_manager')), c.old.attr(c.p.symbol_node, 'node_id')) == 0), S.ival(c.res) == 0))],
+                     modifies=lambda c: {}))
 
     # ---- check_method_name -------------------------------------------------------------------------------------------------------------------------------------
     reg.add_class(ClassInfo('StateNode', TA, dict(access_path=List(Obj('AccessPoint')))))
@@ -334,7 +393,7 @@ ASSUMPTIONS = [
     'THE DATA-DEPENDENCE HALF IS NOT PROVED: that a non-zero intersection of the propagated tag and the sink tag implies a dependence in the program needs soundness of the SFG '
     'construction and of PathFinder.propagate_taint (whole points-to engine); only the rule side of the statement is decided',
     'the state flow graph is an opaque networkx DiGraph: predecessors/get_edge_data are uninterpreted functions of (graph, node); edge attribute dicts hold SFGEdge objects',
-    f'taint tags are treated as {BITW}-bit vectors (|, & encoded over the bits); get_symbol_with_states_tag, get_stmt_used_symbol_and_state_by_pos are pure reads (assumed)',
+    f'taint tags are treated as {BITW}-bit vectors (|, & encoded over the bits); get_stmt_used_symbol_and_state_by_pos is a pure read (assumed); TaintEnv.get_state_tag/get_symbol_tag are uninterpreted functions of (environment object, id); the work queue (collections.deque) content is not modelled',
     "str.split('.') is an uninterpreted function from a string to a sequence of strings; util.access_path_formatter returns some string; os.path.basename as in C18",
     'rule records are well-typed: names / symbol names are strings, keys strings or None (a nameless field_write rule would raise TypeError in `rule.name in node.operation`)',
     'the source appliers (apply_parameter/field_read/call_stmt/object_call_stmt_source_rules, which also write tags), should_apply_object_call_stmt_sink_rules, find_sources, '
@@ -353,6 +412,7 @@ QUICK_CANARIES = {
     'TaintRuleApplier.should_apply_call_stmt_sink_rules': ['flip-comparison', 'negate-condition'],
     'TaintRuleApplier.apply_record_write_sink_rules': ['flip-comparison', 'negate-condition'],
     'TaintRuleApplier.apply_field_write_sink_rules': ['flip-comparison', 'negate-condition'],
+    'TaintAnalysis.get_state_with_inclusion_tag': ['delete-stmt[tag |= self.taint_manager.get_state_tag(curr_state.node_id)]'],
     'TaintAnalysis.find_flows': ['flip-comparison', 'delete-stmt[self.taint_manager = original_manager]', 'delete-stmt[self.taint_manager = TaintEnv()]'],
 }
 MIN_CANARY_KILL_RATIO = 0.6
